@@ -162,6 +162,23 @@ class Gen:
             kind = self.markkinds.setdefault((share, fr["framer"], name), kind)
         return need(kind, neg, share=share, frame=frame, by=by, form=form)
 
+    def mark_cluster(self, prog, key, keys):
+        """two or three conditions of ONE kind on ONE share naming ONE frame (`in frame X`) under DIFFERENT marks
+        (the frame's default mark, `by m`, `by n`): every one of these marks is set on entry to X"""
+        r = self.r
+        fr = prog["frames"][key]
+        share = r.choice(self.nums(prog))
+        frame = key if r.random() < 0.6 else r.choice(keys)
+        fname = prog["frames"][frame]["name"]
+        kind = self.markkinds.setdefault((share, fr["framer"], fname), r.choice(("updated", "changed")))
+        bys = ["", "u0", "u1"] if kind == "updated" else ["", "c0", "c1"]
+        bys = [b for b in bys if self.markkinds.setdefault((share, fr["framer"], b or fname), kind) == kind]
+        if r.random() < 0.5 and len(bys) > 2:
+            bys.remove(r.choice(bys))
+        r.shuffle(bys)
+        return [need(kind, r.random() < 0.1, share=share, frame=frame, by=b,
+                     form=r.choice(("name", "me", "bare")) if frame == key else "name") for b in bys]
+
     def some_need(self, prog, framer, auxes=(), go=None):
         r = self.r
         kinds = []
@@ -235,6 +252,10 @@ class Gen:
                 fr["precur"].append({"k": "go", "far": far, "needs": self.needs(prog, name, auxnames, go=(key, keys)), "transit": []})
             if condaux and r.random() < 0.2:
                 fr["precur"].append({"k": "auxif", "aux": r.choice(list(condaux)), "needs": self.needs(prog, name, (), 1)})
+            # several marks of one share set on entry to one frame (one transition per condition)
+            if self.has("marks") and r.random() < 0.12:
+                for n in self.mark_cluster(prog, key, keys):
+                    fr["precur"].append({"k": "go", "far": r.choice(keys), "needs": [n], "transit": []})
             # timeout / repeat: implicit transitions to the lexically next frame
             nxt = keys.index(key) + 1
             if self.has("clocks") and nxt < len(keys) and r.random() < 0.35:
@@ -401,6 +422,10 @@ class Gen:
                     elif c < 0.35:
                         ns.insert(r.randint(0, 1), need("cmp", False, share=r.choice(prog["inputs"][:2]), op=r.choice(("==", "!=")), goal=r.randint(0, 1)))
                     fr["precur"].append({"k": "go", "far": r.choice(keys), "needs": ns, "transit": []})
+                # several marks of one share set on entry to one frame: one transition per condition
+                if r.random() < 0.35:
+                    for n in self.mark_cluster(prog, key, keys):
+                        fr["precur"].insert(r.randint(0, len(fr["precur"])), {"k": "go", "far": r.choice(keys), "needs": [n], "transit": []})
                 # the watcher itself writes a watched share on entry (after the entry mark) / every tick
                 if r.random() < 0.25:
                     fr[r.choice(("enter", "enter", "recur", "exit"))].append({"k": "put", "share": r.choice(self.outs), "val": r.randint(0, 1)})
